@@ -287,11 +287,13 @@ class RelayDriver:
                 out[name] = ('r' if m & selectors.EVENT_READ else '') + ('w' if m & selectors.EVENT_WRITE else '')
             return out, ev
         S.interest = interest
-        if external_shutdown:
-            # the caller (real Threadless._cleanup / real run()) performs shutdown()
-            def only_mark():
+        self.external_shutdown = external_shutdown
+        # shutdown() is performed after the observations of the step have been taken (threaded shutdown flushes):
+        # by step() below, or by the caller (real Threadless._cleanup / real run()) when external_shutdown
+        def only_mark():
+            if external_shutdown:
                 S.torn = True
-            S.teardown = only_mark
+        S.teardown = only_mark
         if self.threaded and handler == 'http':
             try:
                 h.selector.close()
@@ -453,7 +455,10 @@ class RelayDriver:
     def step(self, ev0):
         r, w = self.pre_step(ev0)
         x = self.S.step(r, w)
-        return self.post_step(0 if x == 'ok' else 1 if x == 'teardown' else 2)
+        res = self.post_step(0 if x == 'ok' else 1 if x == 'teardown' else 2)
+        if res and not self.external_shutdown:
+            sim.Sim.teardown(self.S)          # h.shutdown(), exceptions recorded in S.trace
+        return res
 
     def finish(self):
         S, h = self.S, self.h
